@@ -17,6 +17,8 @@ import Driver.C32
 import Driver.C20
 import Driver.C11
 import Driver.Um
+import Driver.C23
+import Driver.C28
 /-
   Model driver: reads one request per line on stdin (`<suite> <op> <args…>`), answers one
   line per request on stdout.  Imports models only (no Mathlib, no proofs).
@@ -43,6 +45,8 @@ def dispatch (fs : List String) : String :=
   | "c20" :: rest => Driver.c20 rest
   | "c11" :: rest => Driver.c11 rest
   | "c01" :: rest | "c02" :: rest | "c03" :: rest | "c04" :: rest | "c27" :: rest => Driver.um rest
+  | "c23" :: rest => Driver.c23 rest
+  | "c28" :: rest => Driver.c28 rest
   | _ => "bad-op"
 
 partial def loop (h : IO.FS.Stream) (out : IO.FS.Stream) : IO Unit := do
